@@ -29,7 +29,7 @@ import numpy as np
 from engine import build, shim
 
 LEAF_CLASSES = ["Affine", "Loc", "Scale", "TriangularAffine", "Exp", "SoftPlus", "Tanh", "LeakyTanh", "Identity", "Flip",
-                "Permute", "RationalQuadraticSpline", "PlanarLeaky", "PlanarTanh", "AdditiveCondition", "Coupling",
+                "Permute", "RationalQuadraticSpline", "RationalQuadraticSplineOffCentre", "PlanarLeaky", "PlanarTanh", "AdditiveCondition", "Coupling",
                 "CouplingSpline", "MaskedAutoregressive", "MaskedAutoregressiveSpline", "BlockAutoregressiveNetwork", "BlockAutoregressiveNetworkDeep",
                 "VmapSpline", "Reshape", "EmbedCondition"]
 ONTO = ["Affine", "LeakyTanh", "VmapSpline", "Loc", "Flip"]          # leaves that are bijections of R^n onto R^n
@@ -73,8 +73,9 @@ def leaf(cls, shape, rs, regime, key):
         return bj.LeakyTanh(float(rs.choice([1.0, 3.0, 0.5])), shape)
     if cls == "Permute":
         return bj.Permute(rs.permutation(n).reshape(shape))
-    if cls == "RationalQuadraticSpline":
-        b = bj.RationalQuadraticSpline(knots=int(rs.integers(2, 6)), interval=[2, 3, (-2.0, 3.0), (0.5, 4.0)][int(rs.integers(4))])
+    if cls in ("RationalQuadraticSpline", "RationalQuadraticSplineOffCentre"):
+        ivs = [2, 3, (-2.0, 3.0)] if cls == "RationalQuadraticSpline" else [(0.5, 4.0), (-7.0, -1.0), (1.0, 1.5)]   # not containing 0
+        b = bj.RationalQuadraticSpline(knots=int(rs.integers(2, 6)), interval=ivs[int(rs.integers(len(ivs)))])
         return perturb(b, rs, sc if sc else 0.0)
     if cls == "VmapSpline":          # a spline on every element of an array
         sp = bj.RationalQuadraticSpline(knots=int(rs.integers(2, 5)), interval=[2, (-2.0, 3.0)][int(rs.integers(2))])
@@ -113,7 +114,7 @@ def leaf(cls, shape, rs, regime, key):
 DEFAULT_SHAPE = {"TriangularAffine": (3,), "PlanarLeaky": (3,), "PlanarTanh": (3,), "Coupling": (3,), "CouplingSpline": (3,),
                  "MaskedAutoregressive": (3,), "MaskedAutoregressiveSpline": (3,), "BlockAutoregressiveNetwork": (2,),
                  "BlockAutoregressiveNetworkDeep": (2,),
-                 "RationalQuadraticSpline": (), "Reshape": (2, 2), "VmapSpline": (3,)}
+                 "RationalQuadraticSpline": (), "RationalQuadraticSplineOffCentre": (), "Reshape": (2, 2), "VmapSpline": (3,)}
 
 
 def boundary_points(cls, b, shape, rs):
@@ -134,7 +135,7 @@ def boundary_points(cls, b, shape, rs):
                 p["sides"] = [xm.reshape(shape), xp.reshape(shape)]
             pts.append(p)
 
-    if cls in ("RationalQuadraticSpline", "VmapSpline", "CouplingSpline", "MaskedAutoregressiveSpline"):
+    if cls in ("RationalQuadraticSpline", "RationalQuadraticSplineOffCentre", "VmapSpline", "CouplingSpline", "MaskedAutoregressiveSpline"):
         ub = unwrap(b)
         sp = ub
         while not hasattr(sp, "x_pos"):
@@ -143,7 +144,7 @@ def boundary_points(cls, b, shape, rs):
                 break
         if sp is not None and hasattr(sp, "interval"):
             lo, hi = float(sp.interval[0]), float(sp.interval[1])
-            knots = [float(v) for v in np.asarray(sp.x_pos).ravel()[:6]] if cls in ("RationalQuadraticSpline", "VmapSpline") else []
+            knots = [float(v) for v in np.asarray(sp.x_pos).ravel()[:6]] if cls in ("RationalQuadraticSpline", "RationalQuadraticSplineOffCentre", "VmapSpline") else []
         else:
             lo, hi, knots = -2.0, 2.0, []
         ends = [lo, hi]
